@@ -862,7 +862,10 @@ impl JobServerHandle {
             if got_token {
                 return Ok(());
             }
-            backoff *= 2;
+            // (capped: the wait above never uses more than a second of it, and doubling
+            // without bound overflows Duration -- a panic -- after some seventy rounds,
+            // i.e. after about a minute of waiting for a token)
+            backoff = cmp::min(backoff * 2, Duration::from_secs(1));
             {
                 let has_token = {
                     let state = self.state.borrow();
